@@ -5,6 +5,8 @@ package main
 // The model's predicted tree inside the output directory is compared as an I-layer check (drift).
 
 import (
+	"bytes"
+	"context"
 	"encoding/json"
 	"fmt"
 	"hash/fnv"
@@ -17,6 +19,7 @@ import (
 	"sync"
 
 	"github.com/ipfs/go-cid"
+	carlib "github.com/ipld/go-car/cmd/car/lib"
 )
 
 type xfTarget struct {
@@ -226,7 +229,15 @@ func runExtractCase(carBin string, c *xfCase, base string, form int) (string, st
 		cmd = exec.Command(carBin, append(xargs, ".")...)
 		cmd.Dir = filepath.Join(w, "out")
 	}
-	outb, err := cmd.CombinedOutput()
+	var outb []byte
+	var err error
+	if form == 5 { // the library entry point, in this process
+		var log bytes.Buffer
+		err = carlib.ExtractFromFile(context.Background(), carPath, filepath.Join(w, "out"), &log)
+		outb = log.Bytes()
+	} else {
+		outb, err = cmd.CombinedOutput()
+	}
 	after := snapshotTree(w, filepath.Join(w, "out"))
 	afterSand := snapshotTree(sand, w)
 	diff := func(a, b map[string]string) string {
@@ -317,7 +328,13 @@ func runExtractReplay(args []string) int {
 				}
 				hs := fnv.New32a()
 				hs.Write([]byte(canon(c.Arch) + canon(c.Pre)))
-				for form := 0; form < 5; form++ {
+				for form := 0; form < 6; form++ {
+					if form == 5 && len(c.Mp) > 0 {
+						continue // lib.ExtractFromFile has no path argument
+					}
+					if form == 5 {
+						rep.count("lib_ExtractFromFile_runs", 1)
+					}
 					if form == 1 && (len(c.Arch) < 2 || hasFroot(&c) || len(c.Mp) > 0) {
 						continue
 					}
@@ -339,7 +356,7 @@ func runExtractReplay(args []string) int {
 					cls, msg, drift := runExtractCase(carBin, &c, base, form)
 					rep.eval(canon(c.Arch)+canon(c.Pre)+fmt.Sprint(form), true)
 					if cls != "" {
-						rep.violate("extract/"+cls+"/"+kindsOf(&c), fmt.Sprintf("archive [%s] (%s roots) pre %s: %s", shapeOf(c.Arch), map[int]string{0: "one", 1: "two", 2: "one, output dir '.'", 3: "one, HAMT-sharded directories", 4: "one, raw-leaf files"}[form], canon(c.Pre), msg),
+						rep.violate("extract/"+cls+"/"+kindsOf(&c), fmt.Sprintf("archive [%s] (%s roots) pre %s: %s", shapeOf(c.Arch), map[int]string{0: "one", 1: "two", 2: "one, output dir '.'", 3: "one, HAMT-sharded directories", 4: "one, raw-leaf files", 5: "lib.ExtractFromFile, one"}[form], canon(c.Pre), msg),
 							map[string]any{"family": "extract", "case": c, "form": form})
 					}
 					if drift != "" {
